@@ -273,6 +273,8 @@ struct Stats {
 	orphan_results: u64,
 	orders_run: u64,
 	reorg_status: u64,
+	header_head_moves: u64,
+	final_header_heads_checked: u64,
 }
 
 fn hash_from(bytes: &[u8]) -> Hash {
@@ -295,6 +297,7 @@ fn run_order(
 	let _ = verif_hooks::events_take_current_thread();
 	let mut accepted: HashSet<Hash> = HashSet::new();
 	let mut last_td = t.genesis.header.total_difficulty().to_num();
+	let mut last_hh: (Hash, u64) = (t.genesis.hash(), last_td);
 	let sigp = format!("C03;order={}", order.class);
 	for (sn, step) in order.steps.iter().enumerate() {
 		stats.deliveries += 1;
@@ -372,6 +375,28 @@ fn run_order(
 				return None;
 			}
 		}
+		// the head of the header chain (header-first processing) obeys the same rule: between two
+		// deliveries it either stays or moves to a header with strictly more cumulative difficulty
+		// (observed on the committed value, so a move inside a batch that is rolled back does not count)
+		{
+			let hh = chain.header_head().unwrap();
+			let htd = hh.total_difficulty.to_num();
+			if hh.last_block_h != last_hh.0 {
+				stats.header_head_moves += 1;
+				if htd <= last_hh.1 {
+					run.violation(
+						&format!("{};header_head_move_not_more_work", sigp),
+						&format!(
+							"after step {} ({:?}) header_head moved from {} (td {}) to {} (td {})",
+							sn, step, last_hh.0, last_hh.1, hh.last_block_h, htd
+						),
+						replay.clone(),
+					);
+					return None;
+				}
+			}
+			last_hh = (hh.last_block_h, htd);
+		}
 		let head = chain.head().unwrap();
 		let td = head.total_difficulty.to_num();
 		if td < last_td {
@@ -408,6 +433,19 @@ fn run_order(
 	stats.orders_run += 1;
 	// all blocks delivered: everything must have been accepted
 	let all: HashSet<Hash> = h.iter().map(|b| b.hash).collect();
+	if accepted == all {
+		// every header has been processed: the header chain's head carries the greatest cumulative difficulty
+		let max_td = h.iter().map(|b| b.block.header.total_difficulty().to_num()).max().unwrap_or(0);
+		stats.final_header_heads_checked += 1;
+		if last_hh.1 != max_td.max(t.genesis.header.total_difficulty().to_num()) {
+			run.violation(
+				&format!("{};final_header_head_not_max_work", sigp),
+				&format!("all headers delivered; header_head {} has td {} but the greatest cumulative difficulty is {}", last_hh.0, last_hh.1, max_td),
+				replay.clone(),
+			);
+			return None;
+		}
+	}
 	if accepted != all {
 		// Not a violation by itself (the statement is about the head, and the head clauses above
 		// and the cross-order comparison judge it): recorded so that the evidence shows it.
@@ -529,7 +567,7 @@ fn worker(run: &Run, shard: usize, nshards: usize, deadline: f64) {
 	let sc = Scratch::new("c03w");
 	let mut digests: Vec<serde_json::Value> = vec![];
 	let mut tree_info: Vec<serde_json::Value> = vec![];
-	let mut stats = Stats { deliveries: 0, head_moves: 0, orphan_results: 0, orders_run: 0, reorg_status: 0 };
+	let mut stats = Stats { deliveries: 0, head_moves: 0, orphan_results: 0, orders_run: 0, reorg_status: 0, header_head_moves: 0, final_header_heads_checked: 0 };
 	let mut class_counts: HashMap<String, u64> = HashMap::new();
 	let mut cached: Option<Tree> = None;
 	let mut j: usize = 0;
@@ -596,6 +634,8 @@ fn worker(run: &Run, shard: usize, nshards: usize, deadline: f64) {
 	}
 	run.count("deliveries", stats.deliveries);
 	run.count("head_move_events_checked", stats.head_moves);
+	run.count("header_head_moves_checked", stats.header_head_moves);
+	run.count("final_header_heads_checked", stats.final_header_heads_checked);
 	run.count("orphan_pool_deliveries", stats.orphan_results);
 	run.count("orders_completed", stats.orders_run);
 	run.count("reorg_status_callbacks", stats.reorg_status);
